@@ -149,14 +149,20 @@ def exec_select(case):
     # the same temperatures with an integer dtype, when they are integral
     arri = {'st': 'skip', 'v': []}
     sci = []
+    scint = []          # per temperature: status of the evaluation at the Python int ("na": not integral)
     if all(float(t).is_integer() for t in Ts):
         ints = [int(t) for t in Ts]
         ok = True
         for t in ints:
-            r = [_call(lambda g=g: float(np.squeeze(g(T=t)))) for g in getters]
-            if {x[0] for x in r} != {'ok'}:
+            t_in = t if case['cseed'] % 3 else np.int64(t)
+            r = [_call(lambda g=g: float(np.squeeze(g(T=t_in)))) for g in getters]
+            st = {x[0] for x in r}
+            scint.append('ok' if st == {'ok'} else 'raise' if st == {'raise'} else 'error')
+            if st != {'ok'}:
                 ok = False
-                break
+                detail.setdefault('int_scalar_error', []).append([t] + [str(x[1])[:120] for x in r if x[0] != 'ok'])
+                sci.append([])
+                continue
             sci.append([to_dec2(x[1]) for x in r])
         if ok:
             int_in = np.array(ints) if case['cseed'] % 4 < 2 else list(ints)
@@ -166,10 +172,10 @@ def exec_select(case):
             else:
                 arri = {'st': 'error', 'v': []}
                 detail['int_array_error'] = [str(r[1])[:200] for r in res if r[0] != 'ok']
-        else:
-            sci = []
+    else:
+        scint = ['na'] * len(Ts)
     e = {'ev': 'select', 'f': f, 'n': len(Ts), 'acc': case['acc'], 'seg': seg_vals, 'sc': sc, 'arr': arr,
-         'arri': arri, 'sci': sci, 'mag': mags}
+         'arri': arri, 'sci': sci, 'scint': scint, 'mag': mags}
     return [e], detail
 
 
